@@ -3,7 +3,7 @@ import vlib
 
 GEN = ('CONSTANTS Node = {%s} Client = {%s} Msgs = {%s} Ids = {%s} HostsOf <- GHosts NodeOf <- GNodeOf Depth = %d\n'
        'SPECIFICATION GSpec\nCONSTRAINT Dump\nCHECK_DEADLOCK FALSE\n')
-HOSTS = {"m1": [1, 2], "m2": [2], "m3": [1], "m4": []}
+HOSTS = {"m1": [1, 2], "m2": [2], "m3": [1], "m4": [], "m5": [2, 3]}   # m5: two destinations that are both remote for a publisher on node 1
 PUBNODE = {"c1": 1, "c2": 2}
 PUBCONN = {"c1": 1, "c2": 2}
 
